@@ -123,6 +123,7 @@ def run(rep, tier):
              "from the other side of the boundary happens inside convert_type_fundamental (event stack), never by a direct assignment between host- and guest-typed storage")
     rep.rule("R-C06-map", "convert_base_types_t maps short/int/long/long long (and unsigned forms) to the backend's types preserving signedness and cv, pointers to the backend pointer type, recurses through arrays, and leaves bool/char/float/enum unchanged (compiler-judged equalities)")
     rdbs = facts.load_core(["model32"], ["PTR", "INVOKE"], thorough=(tier == "thorough"))
+    rdbs += facts.load_sigs(["model32"], thorough=(tier == "thorough"))  # call arguments / callback arguments of every integer kind
     for d_ in rdbs:
         rep.units.append(d_.label)
     check_route(rep, rdbs)
@@ -268,7 +269,7 @@ def map_witnesses(rep):
     rep.extra["map_witnesses"] = len(ws)
 
 
-def check_arrays(rep, db):
+def check_arrays(rep, db, floor=10):
     fns = [f for f in db.insts("rlbox::detail::convert_type_fundamental_or_array")]
     n = 0
     for f in fns:
@@ -324,7 +325,7 @@ def check_arrays(rep, db):
                     rep.violation("R-C06-array", site(f) + " [coverage]", why, f["loc"], inst)
             else:
                 rep.violation("R-C06-array", site(f), "array conversion neither copies bytes nor converts each element", f["loc"], inst)
-    rep.require(n >= 10, "%s: only %d array instantiations of convert_type_fundamental_or_array" % (db.label, n))
+    rep.require(n >= floor, "%s: only %d array instantiations of convert_type_fundamental_or_array (floor %d)" % (db.label, n, floor))
 
 
 def dims_of(t):
